@@ -289,6 +289,75 @@ def run(rep, ctx):
                 bad = "unrecognised atom %s" % ke
         f2.check(ok and bad is None, "is_binary_var", short_loc(g.loc), "is_binary_var: integer variable with bounds [0,1], or fixed at 0 or 1", bad or "unexpected shape")
 
+    # ---- R1: result range of x^a by cases -----------------------------------------------------------
+    def resolve(tab, name, depth=0):
+        t = tab.get(name)
+        while t in tab and depth < 5:
+            t, depth = tab[t], depth + 1
+        return t
+    r1 = rep.rule("C06.R1", "RANGE", "x^a: on every path the result bounds contain the range of the power over the argument domain (even exponent with a zero-crossing domain: [0, max]; otherwise the two end values)", floor=5)
+    from ..conlit import Interp, Unsupported
+    pw = [g for g in over if g.params and "PowConstraintId" in (g.params[0].get("ct") or "")]
+    if len(pw) != 1:
+        raise AnalysisBroken("C06.R1: PreprocessConstraint(PowConstraint&): %d instantiations" % len(pw))
+    g = pw[0]
+    try:
+        em = Interp(g, {}).run()
+    except Unsupported as u:
+        raise AnalysisBroken("C06.R1: the power preprocessor left the analysable fragment: %s" % u)
+    inits = {v["name"]: norm(render(kids(v)[0])).replace(" ", "") for v in g.walk() if v["k"] == "VarDecl" and kids(v)}
+    okd = inits.get("lbx_neg") in ("m.lb(arg)<0", "m.lb(arg)<0.0") and inits.get("ubx_pos") in ("m.ub(arg)>0", "m.ub(arg)>0.0") and "is_integer_value(pwr)" in inits.get("pow_int", "") and \
+        resolve(inits, "pwr") == "c.GetParameters()[0]" and resolve(inits, "arg") == "c.GetArguments()[0]"
+    r1.check(okd, "case-atoms", short_loc(g.loc), "lbx_neg = lb(arg) < 0, ubx_pos = ub(arg) > 0, pow_int = is_integer_value(pwr)", str(inits))
+    A = "pow(this.GetModel().lb(args[0]),params[0])"
+    B = "pow(this.GetModel().ub(args[0]),params[0])"
+
+    def evalb(t, a, b):
+        t = t.replace(A, "(%r)" % a).replace(B, "(%r)" % b)
+        if _re.search(r"[A-Za-z_]", t.replace("min", "").replace("max", "")):
+            return None
+        return eval(t, {"__builtins__": {}}, {"min": min, "max": max})
+    npaths = 0
+    for conds, each, dsc in em:
+        if not (isinstance(dsc, tuple) and dsc[:2] == ("call", "narrow_result_bounds")):
+            continue
+        cd = dict((t, p) for t, p in conds)
+        lo, hi = dsc[2], dsc[3]
+        key = "path|" + ",".join("%s=%s" % (nm_, {True: "T", False: "F", None: "-"}[([p for t, p in conds if tag_ in t] or [None])[0]])
+                                  for nm_, tag_ in (("int>=0", "pow_int&&pwr>=0"), ("even", "is_integer_value(pwr/2)"), ("crossing", "lbx_neg&&ubx_pos")))
+        if cd.get("0==fabs(pwr)") is True:
+            r1.check((lo, hi) == ("1", "1"), "zero-exponent", short_loc(g.loc), "x^0: result fixed to 1")
+            continue
+        npaths += 1
+        skip = [p for t, p in conds if t.replace(" ", "") in ("!pow_int&&lbx_neg||pwr<0&&lbx_neg", "(!pow_int&&lbx_neg)||(pwr<0&&lbx_neg)")]
+        if skip != [False]:
+            r1.fail(key, short_loc(g.loc), "result bounds are narrowed on a path that does not exclude (fractional or negative exponent with a negative lower bound): %s" % conds)
+            continue
+        even = [p for t, p in conds if "is_integer_value(pwr/2)" in t]
+        cross = cd.get("lbx_neg&&ubx_pos")
+        bad = None
+        if even == [True] and cross is True:
+            # lb < 0 < ub, even exponent >= 2: A, B > 0, range [0, max(A, B)]
+            for a, b in ((1.0, 4.0), (4.0, 1.0), (9.0, 9.0), (81.0, 16.0)):
+                l, h = evalb(lo, a, b), evalb(hi, a, b)
+                if l is None or h is None:
+                    raise AnalysisBroken("C06.R1: unrecognised bound expression %s / %s" % (lo, hi))
+                if l > 0.0 or h < max(a, b):
+                    bad = "lb^a = %g, ub^a = %g: bounds [%g, %g] do not contain [0, %g]" % (a, b, l, h, max(a, b))
+            want = "[0, max(lb^a, ub^a)]"
+        else:
+            for a, b in ((1.0, 4.0), (4.0, 1.0), (-8.0, 1.0), (-8.0, -1.0), (0.25, 0.04), (2.0, 2.0)):
+                l, h = evalb(lo, a, b), evalb(hi, a, b)
+                if l is None or h is None:
+                    raise AnalysisBroken("C06.R1: unrecognised bound expression %s / %s" % (lo, hi))
+                if l > min(a, b) or h < max(a, b):
+                    bad = "lb^a = %g, ub^a = %g: bounds [%g, %g] do not contain both end values" % (a, b, l, h)
+            want = "[min(lb^a, ub^a), max(lb^a, ub^a)]"
+        r1.check(bad is None, key, short_loc(g.loc), "result bounds contain %s" % want,
+                 "x^a with %s: %s - a value the expression takes is cut off from the result variable" % ("an even exponent and a domain crossing 0" if want.startswith("[0") else "a monotone case", bad))
+    if npaths < 4:
+        raise AnalysisBroken("C06.R1: only %d narrowing paths" % npaths)
+
     # ---- G1 ---------------------------------------------------------------------------
     g1 = rep.rule("C06.G1", "GUARD", "replacement of an expression by a variable or a constant only under the exactness guards", floor=10)
     helpers = {g.name: g for g in funcs if g.qn.startswith("mp::ConstraintPreprocessors::") and g.name in ("FixEqualityResult", "ReuseEqualityBinaryVar", "CheckEmptySubCon")}
